@@ -5,54 +5,52 @@
 (* reference semantics of ModuleTreeDefs and is judged by the property monitor.  The property is the    *)
 (* set of invariants below - it is not part of any enabling condition.                                  *)
 EXTENDS ModuleTreeDefs
-CONSTANT MaxN
+CONSTANTS MaxN,    \* programs with 1..MaxN modules
+          Vary     \* FALSE: every hook has one fixed result; TRUE: also plans whose first call differs from the later calls
 VARIABLES prog,    \* the program (never changes)
-          st,      \* Module::state_ of every module
+          st,      \* implementation state: Module::state_ of every module (+ hook call counters for varying plans)
           mon,     \* property monitor (ghost)
           ph,      \* obligation phase (ghost)
-          dOK,     \* destruction is legitimate now: after cleanup(), or - as Main() does - after a failed first initialize()
           alive
-vars == <<prog, st, mon, ph, dOK, alive>>
+vars == <<prog, st, mon, ph, alive>>
 
 Bools(n) == [1..n -> BOOLEAN]
 Parents(n) == {p \in [1..n -> 0..(n - 1)] :                          \* pre-order numbered trees (Catalan(n-1) of them)
                  p[1] = 0 /\ \A m \in 2..n : p[m] \in AncSelf([parent |-> p], m - 1)}
 Reqs(n) == {q \in Bools(n) : q[1]}                                   \* the root has no flag
-Outcomes(n) == {o \in Bools(n) \X Bools(n) : \A m \in 1..n : ~o[1][m] => o[2][m]}   \* onStart is irrelevant when onInit fails
+\* per-module plan <<onInit results, onStart results>> (first call, later calls); onStart is irrelevant when onInit always fails
+T2 == <<TRUE, TRUE>>
+FixedPlans == {<<T2, T2>>, <<<<FALSE, FALSE>>, T2>>, <<T2, <<FALSE, FALSE>>>>}
+VaryPlans == {<<<<FALSE, TRUE>>, T2>>, <<<<TRUE, FALSE>>, T2>>, <<T2, <<FALSE, TRUE>>>>, <<T2, <<TRUE, FALSE>>>>}
+Plans == IF Vary THEN FixedPlans \cup VaryPlans ELSE FixedPlans
 \* Programs = all WithDesc([n, parent, req, iok, sok]) with n \in 1..MaxN, parent \in Parents(n), req \in Reqs(n),
-\* <<iok, sok>> \in Outcomes(n).  (Not defined as a constant set: TLC would enumerate it eagerly at start-up.)
+\* a plan per module.  (Not defined as a constant set: TLC would enumerate it eagerly at start-up.)
 
-Init == /\ \E n \in 1..MaxN : \E p \in Parents(n), q \in Reqs(n), o \in Outcomes(n) :       \* any program
-             prog = WithDesc([n |-> n, parent |-> p, req |-> q, iok |-> o[1], sok |-> o[2]])
-        /\ st = [m \in Mods(prog) |-> "N"]
+Init == /\ \E n \in 1..MaxN : \E p \in Parents(n), q \in Reqs(n), o \in [1..n -> Plans] :       \* any program
+             prog = WithDesc([n |-> n, parent |-> p, req |-> q, iok |-> [m \in 1..n |-> o[m][1]], sok |-> [m \in 1..n |-> o[m][2]]])
+        /\ st = StInit(prog)
         /\ mon = MonInit(prog)
-        /\ ph = 0 /\ dOK = TRUE /\ alive = TRUE
+        /\ ph = 0 /\ alive = TRUE
 
 Do(op) ==
   /\ LET r == RootCall(prog, st, op) IN
        /\ st' = r.st
        /\ mon' = Judge(prog, mon, ph, op, r.ret, r.hk)
        /\ ph' = NextPh(prog, ph, op, r.ret, r.hk)
-       /\ dOK' = (op = "cleanup" \/ (op = "initialize" /\ ph = 0 /\ ~r.ret /\ st = [m \in Mods(prog) |-> "N"] /\ dOK))
-  /\ UNCHANGED <<prog, alive>>
+  /\ UNCHANGED <<prog>>
 
-Initialize == alive /\ Do("initialize")
-Start == alive /\ Do("start")
-Stop == alive /\ Do("stop")
-Cleanup == alive /\ Do("cleanup")
-Destroy ==
-  /\ alive /\ dOK
-  /\ LET r == RootCall(prog, st, "destroy") IN
-       /\ st' = r.st
-       /\ mon' = Judge(prog, mon, ph, "destroy", TRUE, r.hk)
-  /\ alive' = FALSE /\ ph' = 9
-  /\ UNCHANGED <<prog, dOK>>
+Initialize == alive /\ Do("initialize") /\ UNCHANGED alive
+Start == alive /\ Do("start") /\ UNCHANGED alive
+Stop == alive /\ Do("stop") /\ UNCHANGED alive
+Cleanup == alive /\ Do("cleanup") /\ UNCHANGED alive
+\* the destruction, from EVERY state (running, initialised, after a failed start, ...): see RootCall("destroy")
+Destroy == alive /\ Do("destroy") /\ alive' = FALSE
 
 Next == Initialize \/ Start \/ Stop \/ Cleanup \/ Destroy
 Spec == Init /\ [][Next]_vars
 
 -----------------------------------------------------------------------------
-TypeOK == /\ WellFormed(prog) /\ prog.n <= MaxN /\ st \in [Mods(prog) -> {"N", "I", "R"}] /\ ph \in {0, 1, 9}
+TypeOK == /\ WellFormed(prog) /\ prog.n <= MaxN /\ st.s \in [Mods(prog) -> {"N", "I", "R"}] /\ ph \in {0, 1, 9}
           /\ mon.bad \subseteq {"ExactlyOnce", "Nested", "StartOnlyAfterInit", "StopOnlyIfStarted", "ReverseOrder",
                                 "CleanupOnlyAfterStop", "Balanced", "HooksCalled", "OptionalFailureIsolated"}
 \* the clauses of the statement
@@ -66,9 +64,9 @@ Balanced                == "Balanced" \notin mon.bad               \* at destruc
 HooksCalled             == "HooksCalled" \notin mon.bad            \* nothing fails: everything is initialised / started
 OptionalFailureIsolated == "OptionalFailureIsolated" \notin mon.bad
 \* the implementation's state variable agrees with the ghost (intended semantics only)
-StateAgrees == alive => \A m \in Mods(prog) : /\ (st[m] = "N") = ~mon.ini[m]
-                                              /\ (st[m] = "R") = mon.run[m]
-\* after the destruction of a cleaned-up tree no hook is pending
+StateAgrees == alive => \A m \in Mods(prog) : /\ (st.s[m] = "N") = ~mon.ini[m]
+                                              /\ (st.s[m] = "R") = mon.run[m]
+\* after the destruction no hook is pending
 DeadClean == ~alive => \A m \in Mods(prog) : ~mon.ini[m] /\ ~mon.run[m]
 \* witness (expected to be violated): the destruction is reachable
 NeverDestroyed == alive
